@@ -152,6 +152,8 @@ contract("usim._primitives.timing.Moment.__subscribe__",
              # fires at the date (now, if the date is now) and never once the date has passed
              "implies(old(loop.time) == self.date, interrupt.scheduled and interrupt.due == loop.time)",
              "implies(old(loop.time) < self.date, not interrupt.scheduled and interrupt.sub is self._transition)",
+             "implies(old(loop.time) <= self.date, interrupt.sub is self._transition and interrupt.target is waiter)",
+             "interrupt._revoked == old(interrupt._revoked)",
              "implies(old(loop.time) > self.date, not interrupt.scheduled and interrupt.sub is None "
              "        and self._transition._waiting == old(self._transition._waiting) and loop._pending == old(loop._pending))"],
          modifies=["After._scheduled@self._transition", "After.trigger_due@self._transition",
